@@ -19,12 +19,13 @@ use bitcoin::secp256k1::{All, Message, PublicKey, Secp256k1, SecretKey};
 use bitcoin::{Amount, Network, TxOut};
 use lightning::ln::chan_utils::make_funding_redeemscript;
 use lightning::ln::msgs::{
-	ChannelAnnouncement, ChannelUpdate, ErrorAction, LightningError, NodeAnnouncement,
+	BaseMessageHandler, SocketAddress, ChannelAnnouncement, ChannelUpdate, ErrorAction, LightningError, NodeAnnouncement,
 	RoutingMessageHandler, UnsignedChannelAnnouncement, UnsignedChannelUpdate,
 	UnsignedNodeAnnouncement,
 };
 use lightning::routing::gossip::{NetworkGraph, NetworkUpdate, NodeAlias, NodeId, P2PGossipSync};
-use lightning::routing::utxo::{UtxoLookup, UtxoLookupError, UtxoResult};
+use lightning::routing::utxo::{UtxoFuture, UtxoLookup, UtxoLookupError, UtxoResult};
+use std::sync::Mutex;
 use lightning::types::features::{ChannelFeatures, NodeFeatures};
 use lightning::util::logger::{Logger, Record};
 use lightning::util::ser::{ReadableArgs, Writeable};
@@ -125,11 +126,29 @@ struct Lookup {
 	caps: Vec<u64>,
 	scripts: Vec<bitcoin::ScriptBuf>,
 	chain: ChainHash,
+	/// answer with `UtxoResult::Async`; the futures wait here until a `resolve` op
+	async_mode: bool,
+	pending: Mutex<Vec<(u64, UtxoFuture)>>,
+}
+impl Lookup {
+	fn txout(&self, scid: u64) -> Result<TxOut, UtxoLookupError> {
+		if scid >= 1 && (scid as usize) <= self.caps.len() {
+			let i = scid as usize - 1;
+			Ok(TxOut { value: Amount::from_sat(self.caps[i]), script_pubkey: self.scripts[i].clone() })
+		} else {
+			Err(UtxoLookupError::UnknownTx)
+		}
+	}
 }
 impl UtxoLookup for Lookup {
-	fn get_utxo(&self, chain_hash: &ChainHash, scid: u64, _n: Arc<Notifier>) -> UtxoResult {
+	fn get_utxo(&self, chain_hash: &ChainHash, scid: u64, n: Arc<Notifier>) -> UtxoResult {
 		if *chain_hash != self.chain {
 			return UtxoResult::Sync(Err(UtxoLookupError::UnknownChain));
+		}
+		if self.async_mode {
+			let fut = UtxoFuture::new(n);
+			self.pending.lock().unwrap().push((scid, fut.clone()));
+			return UtxoResult::Async(fut);
 		}
 		if scid >= 1 && (scid as usize) <= self.caps.len() {
 			let i = scid as usize - 1;
@@ -168,7 +187,7 @@ fn norm_msg(m: &Value) -> Value {
 		"chain": m.get("chain").and_then(|x| x.as_bool()).unwrap_or(true),
 		"n": gi(m, "n"), "d": gi(m, "d"), "ts": gi(m, "ts"), "s": gi(m, "s"), "en": gb(m, "en"),
 		"cltv": gi(m, "cltv"), "hmin": gi(m, "hmin"), "hmax": gi(m, "hmax"), "fb": gi(m, "fb"),
-		"fp": gi(m, "fp"), "ap": gi(m, "ap"), "w": gi(m, "w"),
+		"fp": gi(m, "fp"), "ap": gi(m, "ap"), "ad": gi(m, "ad"), "w": gi(m, "w"),
 	})
 }
 
@@ -216,6 +235,14 @@ fn build_cu(k: &Keys, m: &Value, base: i64, intended: i64) -> ChannelUpdate {
 	ChannelUpdate { signature: k.sign(&enc, gi(m, "s"), intended), contents }
 }
 
+fn addr_of(ad: i64) -> Vec<SocketAddress> {
+	if ad > 0 {
+		vec![SocketAddress::TcpIpV4 { addr: [127, 0, 0, 1], port: ad as u16 }]
+	} else {
+		Vec::new()
+	}
+}
+
 fn build_na(k: &Keys, m: &Value, base: i64) -> NodeAnnouncement {
 	let n = gi(m, "n");
 	let ap = gi(m, "ap") as u8;
@@ -227,7 +254,7 @@ fn build_na(k: &Keys, m: &Value, base: i64) -> NodeAnnouncement {
 		node_id: k.node_id(n),
 		rgb: [ap, 0, 0],
 		alias: NodeAlias(alias),
-		addresses: Vec::new(),
+		addresses: addr_of(gi(m, "ad")),
 		excess_address_data: Vec::new(),
 		excess_data: Vec::new(),
 	};
@@ -285,11 +312,20 @@ fn project(g: &Graph, k: &Keys, base: i64) -> Value {
 		let n = k.index_of(id);
 		let mut cl: Vec<i64> = nd.channels.iter().map(|x| clamp(*x as i64)).collect();
 		cl.sort();
-		let (ha, ats, ap) = match nd.announcement_info.as_ref() {
-			None => (false, 0, 0),
-			Some(a) => (true, clamp(a.last_update() as i64 - base), a.alias().0[0] as i64),
+		let (ha, ats, ap, ad) = match nd.announcement_info.as_ref() {
+			None => (false, 0, 0, 0),
+			Some(a) => (
+				true,
+				clamp(a.last_update() as i64 - base),
+				a.alias().0[0] as i64,
+				match a.addresses().first() {
+					Some(SocketAddress::TcpIpV4 { port, .. }) => *port as i64,
+					Some(_) => -1,
+					None => 0,
+				},
+			),
 		};
-		nodes.push((n, json!({"n": n, "ha": ha, "ats": ats, "ap": ap, "chans": cl})));
+		nodes.push((n, json!({"n": n, "ha": ha, "ats": ats, "ap": ap, "ad": ad, "chans": cl})));
 	}
 	nodes.sort_by_key(|x| x.0);
 	json!({
@@ -322,8 +358,24 @@ fn build_rgs(k: &Keys, op: &Value, base: i64) -> Vec<u8> {
 		0u8.write(&mut out).unwrap(); // no default node features
 	}
 	(NN as u32).write(&mut out).unwrap();
+	let nodes = op.get("nodes").and_then(|x| x.as_array()).cloned().unwrap_or_default();
 	for i in 1..=NN as i64 {
-		out.extend_from_slice(&k.pk(i).serialize());
+		let mut key = k.pk(i).serialize();
+		// v2 node record: bit 2 of the first key byte announces address details
+		let rec = if ver == 2 { nodes.iter().find(|r| gi(r, "n") == i) } else { None };
+		if rec.is_some() {
+			key[0] |= 1 << 2;
+		}
+		out.extend_from_slice(&key);
+		if let Some(r) = rec {
+			let addrs = addr_of(gi(r, "ad"));
+			(addrs.len() as u8).write(&mut out).unwrap();
+			for a in addrs.iter() {
+				let enc = a.encode();
+				(enc.len() as u8).write(&mut out).unwrap();
+				out.extend_from_slice(&enc);
+			}
+		}
 	}
 	let anns = op.get("anns").and_then(|x| x.as_array()).cloned().unwrap_or_default();
 	(anns.len() as u32).write(&mut out).unwrap();
@@ -388,6 +440,7 @@ fn run_script(k: &Keys, script: &Value, run: u64, tw: &mut TraceWriter, st: &mut
 	let logger = Arc::new(NullLogger);
 	let base = SystemTime::now().duration_since(UNIX_EPOCH).unwrap().as_secs() as i64;
 	let lookup_on = gb(script, "lookup");
+	let async_mode = lookup_on && gb(script, "async");
 	let caps: Vec<u64> = match script.get("caps").and_then(|x| x.as_array()) {
 		Some(a) => (0..NC).map(|i| a.get(i).and_then(|x| x.as_u64()).unwrap_or(1000)).collect(),
 		None => vec![1000; NC],
@@ -403,8 +456,18 @@ fn run_script(k: &Keys, script: &Value, run: u64, tw: &mut TraceWriter, st: &mut
 		})
 		.collect();
 	let lookup: Option<Arc<Lookup>> =
-		if lookup_on { Some(Arc::new(Lookup { caps: caps.clone(), scripts, chain: chain_of(true) })) } else { None };
-	tw.emit(json!({"run": run, "ev": "reset", "lookup": lookup_on, "caps": caps}));
+		if lookup_on {
+			Some(Arc::new(Lookup {
+				caps: caps.clone(),
+				scripts,
+				chain: chain_of(true),
+				async_mode,
+				pending: Mutex::new(Vec::new()),
+			}))
+		} else {
+			None
+		};
+	tw.emit(json!({"run": run, "ev": "reset", "lookup": lookup_on, "async": async_mode, "caps": caps}));
 	let mut graph: Graph = NetworkGraph::new(Network::Testnet, Arc::clone(&logger));
 	let empty = Vec::new();
 	let ops = script.get("ops").and_then(|x| x.as_array()).unwrap_or(&empty);
@@ -413,13 +476,29 @@ fn run_script(k: &Keys, script: &Value, run: u64, tw: &mut TraceWriter, st: &mut
 		let before = project(&graph, k, base);
 		let mut ev = match gs(op, "op") {
 			"deliver" => {
-				let m = norm_msg(&op["m"]);
-				let p2p = gs(op, "via") == "p2p";
+				let mut m = norm_msg(&op["m"]);
+				// third entry point: the unsigned variants (no signature verification requested);
+				// such a message is recorded with signer -2
+				let unsigned = gs(op, "via") == "unsigned"
+					|| (gs(&m, "k") == "ca" && gi(&m, "s1") == -2)
+					|| (gs(&m, "k") != "ca" && gi(&m, "s") == -2);
+				if unsigned {
+					if gs(&m, "k") == "ca" {
+						m["s1"] = json!(-2);
+						m["s2"] = json!(-2);
+						m["bs"] = json!(1);
+					} else {
+						m["s"] = json!(-2);
+					}
+				}
+				let p2p = !unsigned && gs(op, "via") == "p2p";
 				let sync = P2PGossipSync::new(&graph, lookup.clone(), Arc::clone(&logger));
 				let (res, act) = match gs(&m, "k") {
 					"ca" => {
 						let msg = build_ca(k, &m);
-						if p2p {
+						if unsigned {
+							class(&graph.update_channel_from_unsigned_announcement(&msg.contents, &lookup))
+						} else if p2p {
 							class(&sync.handle_channel_announcement(None, &msg))
 						} else {
 							class(&graph.update_channel_from_announcement(&msg, &lookup))
@@ -436,7 +515,9 @@ fn run_script(k: &Keys, script: &Value, run: u64, tw: &mut TraceWriter, st: &mut
 							}
 						};
 						let msg = build_cu(k, &m, base, intended);
-						if p2p {
+						if unsigned {
+							class(&graph.update_channel_unsigned(&msg.contents))
+						} else if p2p {
 							class(&sync.handle_channel_update(None, &msg))
 						} else {
 							class(&graph.update_channel(&msg))
@@ -444,7 +525,9 @@ fn run_script(k: &Keys, script: &Value, run: u64, tw: &mut TraceWriter, st: &mut
 					},
 					_ => {
 						let msg = build_na(k, &m, base);
-						if p2p {
+						if unsigned {
+							class(&graph.update_node_from_unsigned_announcement(&msg.contents))
+						} else if p2p {
 							class(&sync.handle_node_announcement(None, &msg))
 						} else {
 							class(&graph.update_node_from_announcement(&msg))
@@ -457,7 +540,31 @@ fn run_script(k: &Keys, script: &Value, run: u64, tw: &mut TraceWriter, st: &mut
 				} else {
 					st.err += 1
 				}
-				json!({"run": run, "ev": "deliver", "via": if p2p { "p2p" } else { "direct" }, "m": m, "res": res, "act": act})
+				let via = if unsigned { "unsigned" } else if p2p { "p2p" } else { "direct" };
+				json!({"run": run, "ev": "deliver", "via": via, "m": m, "res": res, "act": act})
+			},
+			"resolve" => {
+				// the asynchronous UTXO lookups of scid c complete; the graph processes completed
+				// checks when its message handler is polled for events
+				let c = gi(op, "c");
+				let ok = gb(op, "ok");
+				if let Some(lk) = lookup.as_ref() {
+					let mut futs: Vec<UtxoFuture> = Vec::new();
+					lk.pending.lock().unwrap().retain(|(scid, f)| {
+						if *scid == c as u64 {
+							futs.push(f.clone());
+							false
+						} else {
+							true
+						}
+					});
+					for f in futs {
+						f.resolve(if ok { lk.txout(c as u64) } else { Err(UtxoLookupError::UnknownTx) });
+					}
+				}
+				let sync = P2PGossipSync::new(&graph, lookup.clone(), Arc::clone(&logger));
+				let _ = sync.get_and_clear_pending_msg_events();
+				json!({"run": run, "ev": "resolve", "c": c, "ok": ok})
 			},
 			"failc" => {
 				let c = gi(op, "c");
@@ -501,6 +608,16 @@ fn run_script(k: &Keys, script: &Value, run: u64, tw: &mut TraceWriter, st: &mut
 					v.dedup_by_key(|x| (gi(x, "c"), gi(x, "d")));
 					o[key] = Value::Array(v);
 				}
+				{
+					let mut v = if gi(&o, "ver") == 2 {
+						o.get("nodes").and_then(|x| x.as_array()).cloned().unwrap_or_default()
+					} else {
+						Vec::new()
+					};
+					v.sort_by_key(|x| gi(x, "n"));
+					v.dedup_by_key(|x| gi(x, "n"));
+					o["nodes"] = Value::Array(v);
+				}
 				let bytes = build_rgs(k, &o, base);
 				let prune = gb(&o, "prune");
 				let now = if prune { Some((base + TWO_WEEKS + gi(&o, "t")) as u64) } else { None };
@@ -514,7 +631,9 @@ fn run_script(k: &Keys, script: &Value, run: u64, tw: &mut TraceWriter, st: &mut
 					json!({"c": gi(u, "c"), "d": gi(u, "d"), "en": gb(u, "en"), "cltv": gi(u, "cltv"),
 						"hmin": gi(u, "hmin"), "hmax": gi(u, "hmax"), "fb": gi(u, "fb"), "fp": gi(u, "fp")})
 				}).collect();
-				json!({"run": run, "ev": "rgs", "ts": gi(&o, "ts"), "ver": gi(&o, "ver"), "anns": anns, "upds": upds,
+				let nodes: Vec<Value> = o["nodes"].as_array().unwrap().iter()
+					.map(|r| json!({"n": gi(r, "n"), "ad": gi(r, "ad")})).collect();
+				json!({"run": run, "ev": "rgs", "ts": gi(&o, "ts"), "ver": gi(&o, "ver"), "anns": anns, "nodes": nodes, "upds": upds,
 					"prune": prune, "t": gi(&o, "t"), "res": if r.is_ok() { "ok" } else { "err" }})
 			},
 			other => json!({"run": run, "ev": "bad_op", "op": other}),
@@ -546,6 +665,8 @@ fn random_script(rng: &mut StdRng) -> Value {
 	let lookup = rng.gen_bool(0.5);
 	let caps: Vec<i64> = (0..NC).map(|_| if rng.gen_bool(0.5) { 1000 } else { 2000 }).collect();
 	let pure_run = rng.gen_bool(0.4);
+	// asynchronous UTXO lookups: announcements stay pending until a `resolve` op
+	let async_run = lookup && rng.gen_bool(0.4);
 	let nch = rng.gen_range(1..=3);
 	let mut pairs: Vec<(i64, i64)> = Vec::new();
 	for _ in 0..NC {
@@ -577,7 +698,7 @@ fn random_script(rng: &mut StdRng) -> Value {
 				},
 				2 => pool.push(json!({"k": "ca", "c": c, "n1": n1, "n2": n2, "s1": n1, "s2": n2, "bs": 0, "chain": true, "w": rng.gen_range(0..2)})),
 				3 => pool.push(json!({"k": "ca", "c": c, "n1": n1, "n2": n2, "s1": n1, "s2": n2, "bs": 1, "chain": false})),
-				4 => {
+				4 if !async_run => {
 					// a correctly signed announcement of the same scid by another node pair
 					let o = other(n1, n2, rng);
 					let (a, b) = (n1.min(o), n1.max(o));
@@ -598,7 +719,8 @@ fn random_script(rng: &mut StdRng) -> Value {
 				}
 				used.push(ts);
 				let hmax = if !lookup && rng.gen_bool(0.2) { cap_msat + rng.gen_range(1..5000) } else { rng.gen_range(1000..=cap_msat) };
-				pool.push(cu_msg(c, d, ts, signer, true, hmax, rng));
+				let s = if rng.gen_bool(0.15) { -2 } else { signer };
+				pool.push(cu_msg(c, d, ts, s, true, hmax, rng));
 			}
 			if !pure_run {
 				let ts = tss[rng.gen_range(0..tss.len())];
@@ -609,6 +731,7 @@ fn random_script(rng: &mut StdRng) -> Value {
 					2 => pool.push(cu_msg(c, d, ts, signer, false, hok, rng)),
 					3 => pool.push(cu_msg(c, d, ts, signer, true, cap_msat + rng.gen_range(1..3), rng)),
 					4 => pool.push(cu_msg(c, d, ts, other(n1, n2, rng), true, hok, rng)),
+					5 | 6 => pool.push(cu_msg(c, d, ts, -2, true, hok, rng)), // unsigned entry point, likely an equal timestamp
 					_ => {},
 				}
 			}
@@ -629,11 +752,15 @@ fn random_script(rng: &mut StdRng) -> Value {
 				continue;
 			}
 			used.push(ts);
-			pool.push(json!({"k": "na", "n": n, "ts": ts, "s": n, "ap": rng.gen_range(1..250)}));
+			let s = if rng.gen_bool(0.15) { -2 } else { n };
+			let ad = if rng.gen_bool(0.3) { 0 } else { rng.gen_range(1..60000) };
+			pool.push(json!({"k": "na", "n": n, "ts": ts, "s": s, "ap": rng.gen_range(1..250), "ad": ad}));
 		}
-		if !pure_run && rng.gen_bool(0.25) {
-			let s = [0, -1, (n % 5) + 1][rng.gen_range(0..3)];
-			pool.push(json!({"k": "na", "n": n, "ts": tss[rng.gen_range(0..tss.len())], "s": s, "ap": rng.gen_range(1..250)}));
+		if !pure_run && rng.gen_bool(0.4) {
+			// wrongly signed, or handed in unsigned (likely with a timestamp already stored)
+			let s = [0, -1, (n % 5) + 1, -2, -2][rng.gen_range(0..5)];
+			let ad = rng.gen_range(0..60000);
+			pool.push(json!({"k": "na", "n": n, "ts": tss[rng.gen_range(0..tss.len())], "s": s, "ap": rng.gen_range(1..250), "ad": ad}));
 		}
 	}
 	let via = |rng: &mut StdRng| if rng.gen_bool(0.5) { "p2p" } else { "direct" };
@@ -648,6 +775,24 @@ fn random_script(rng: &mut StdRng) -> Value {
 	}
 	while order.len() < len {
 		order.push(rng.gen_range(0..pool.len()));
+	}
+	if async_run {
+		for i in order {
+			ops.push(json!({"op": "deliver", "via": via(rng), "m": pool[i].clone()}));
+			if rng.gen_bool(0.12) {
+				ops.push(json!({"op": "resolve", "c": rng.gen_range(1..=nch as i64), "ok": rng.gen_bool(0.85)}));
+			}
+		}
+		for c in 1..=nch as i64 {
+			ops.push(json!({"op": "resolve", "c": c, "ok": rng.gen_bool(0.85)}));
+		}
+		for _ in 0..pool.len() / 2 {
+			ops.push(json!({"op": "deliver", "via": via(rng), "m": pool[rng.gen_range(0..pool.len())].clone()}));
+		}
+		for c in 1..=nch as i64 {
+			ops.push(json!({"op": "resolve", "c": c, "ok": true}));
+		}
+		return json!({"lookup": lookup, "async": true, "caps": caps, "ops": ops, "pure": pure_run});
 	}
 	for i in order {
 		ops.push(json!({"op": "deliver", "via": via(rng), "m": pool[i].clone()}));
@@ -665,6 +810,14 @@ fn random_script(rng: &mut StdRng) -> Value {
 					let ver = rng.gen_range(1..=2);
 					let mut anns: Vec<Value> = Vec::new();
 					let mut upds: Vec<Value> = Vec::new();
+					let mut nodes: Vec<Value> = Vec::new();
+					if ver == 2 {
+						for n in 1..=5i64 {
+							if rng.gen_bool(0.35) {
+								nodes.push(json!({"n": n, "ad": rng.gen_range(0..60000)}));
+							}
+						}
+					}
 					for c in 1..=NC as i64 {
 						if rng.gen_bool(0.4) {
 							let (n1, n2) = pairs[c as usize - 1];
@@ -678,15 +831,15 @@ fn random_script(rng: &mut StdRng) -> Value {
 							}
 						}
 					}
-					let ts = [50i64, 150, 250, 350][rng.gen_range(0..4)];
+					let ts = [50i64, 100, 200, 300, 400][rng.gen_range(0..5)];
 					let t = [0i64, 150, 250, 350][rng.gen_range(0..4)];
-					ops.push(json!({"op": "rgs", "ver": ver, "ts": ts, "anns": anns, "upds": upds,
+					ops.push(json!({"op": "rgs", "ver": ver, "ts": ts, "anns": anns, "nodes": nodes, "upds": upds,
 						"prune": rng.gen_bool(0.4), "t": t}));
 				},
 			}
 		}
 	}
-	json!({"lookup": lookup, "caps": caps, "ops": ops, "pure": pure_run})
+	json!({"lookup": lookup, "async": false, "caps": caps, "ops": ops, "pure": pure_run})
 }
 
 fn main() {
